@@ -178,4 +178,18 @@ PROPS['C18'] = {
     'level_note': 'Root finder convergence and inverse accuracy (1e-4*M) are numerical facts outside contract reach: bounded lattice only.',
 }
 
+PROPS['C09'] = {
+    'contracts': ['contracts.mef:FitBeads'],
+    'bounded': True,
+    'level': 'other',
+    'timeout_ms': 15000,
+    'explanation': 'Proved for every fit (symbolic bead values, symbolic optimiser result within the bounds actually handed to minimize): '
+                   'the standard curve is odd, zero at zero, increasing for positive slope; the fitted autofluorescence is >= 0 because the '
+                   'bound (0, None) is attached to parameter 2; the bead model equals the standard curve minus the autofluorescence for '
+                   'positive inputs; both closures use the same fitted parameters; fewer than three populations / mismatched lengths raise. '
+                   'Recovery of the generating law within 5% (convergence of L-BFGS-B) is outside contract reach: bounded lattice only. '
+                   'Floating-point corner cases (0*inf) are invisible over the reals: the bounded stand-in checks std_crv(0) numerically.',
+    'level_note': 'A-REAL axioms for exp/log/pow; minimize assumed to respect its bounds; recovery clause bounded only.',
+}
+
 NOT_APPLICABLE = {}
